@@ -164,16 +164,25 @@ def changed_nodes(pool):
     return [n for n in pool if not same(n.snap, n.real.var_context) or n.real.getter is not n.getter]
 
 
+CONFIRMED_HANGS = [0]
+
+
 def attempt(f):
-    try:
-        with watchdog(2):
-            return True, f()
-    except Timeout:
-        return False, "NON-TERMINATION"
-    except RecursionError:
-        return False, "RecursionError"
-    except Exception as e:
-        return False, "%s" % type(e).__name__
+    """(True, result) or (False, kind of failure).  Variables are stateless, so a call that ran into the 2 s wall-clock
+    watchdog is repeated once with 15 s before it is reported: on a loaded machine the process may simply not have been
+    scheduled (after 3 confirmed hangs no more second chances, to keep the run bounded)."""
+    for seconds in (2, 15):
+        try:
+            with watchdog(seconds):
+                return True, f()
+        except Timeout:
+            if seconds == 15 or CONFIRMED_HANGS[0] >= 3:
+                CONFIRMED_HANGS[0] += 1
+                return False, "NON-TERMINATION"
+        except RecursionError:
+            return False, "RecursionError"
+        except Exception as e:
+            return False, "%s" % type(e).__name__
 
 
 def make_value(data, pre):
